@@ -180,7 +180,10 @@ inductive Act where
   /-- task `t` is polled, finds its response, uses it and releases the slot -/
   | consume (t : Nat)
 
-/-- Task `t` polled while it has no request outstanding. -/
+/-- Task `t` polled while it has no request outstanding: `alloc_frame`, pushes, `mark_sendable`,
+    `wake_sender` happen in one poll, and the TX side sends the frame before anybody else runs.
+    If `alloc_frame` fails the operation returns `Err(SwapState)` to the program; here the failure is
+    counted in `fails` and the task stays where it was (the theorems show when this cannot happen). -/
 def issue (S : Sys Rq Rs σ) (st : St Rq Rs σ) (t : Nat) : St Rq Rs σ :=
   match findSlot (selTask t) st.slots with
   | some _ => st
@@ -222,7 +225,9 @@ def imgWrite (S : Sys Rq Rs σ) (img : Nat → List Nat) (rq : Rq) (rs : Rs) : O
   | some g => some (g, S.inputs rq rs (img g))
   | none => none
 
-/-- Task `t` picks up its response (future `Ready`), uses it, drops the `ReceivedFrame`. -/
+/-- Task `t` picks up its response (future `Ready`), uses it, drops the `ReceivedFrame`.  Every poll
+    of a task whose slot is in `RxDone` does this; a poll that finds nothing changes nothing (the
+    recorded schedules of the harness contain one `consume t` per poll of `t`). -/
 def consume (S : Sys Rq Rs σ) (st : St Rq Rs σ) (t : Nat) : St Rq Rs σ :=
   match findSlot (selDone t) st.slots with
   | none => st
